@@ -124,6 +124,37 @@ class SimTTY(io.TextIOBase):
 
 
 # ---------------------------------------------------------------------------
+# virtual-time asyncio loop (async steps): no real sleeping anywhere
+# ---------------------------------------------------------------------------
+def make_virtual_loop(clock):
+    import asyncio
+
+    class VirtualTimeLoop(asyncio.SelectorEventLoop):
+        """time() is the simulated clock; when nothing is ready the clock jumps to the next timer."""
+        def __init__(self):
+            super(VirtualTimeLoop, self).__init__()
+            self._vnow = 0.0
+            self.jumps = 0
+            self.virtual_seconds = 0.0
+
+        def time(self):
+            return self._vnow
+
+        def _run_once(self):
+            if not self._ready and self._scheduled:
+                when = self._scheduled[0]._when
+                if when > self._vnow:
+                    self.virtual_seconds += when - self._vnow
+                    clock.advance(when - self._vnow)
+                    self._vnow = when
+                    self.jumps += 1
+            super(VirtualTimeLoop, self)._run_once()
+    loop = VirtualTimeLoop()
+    loop.set_exception_handler(lambda _loop, _ctx: None)    # abandoned / interrupted tasks are expected
+    return loop
+
+
+# ---------------------------------------------------------------------------
 # SIM
 # ---------------------------------------------------------------------------
 class SimKeyboardInterrupt(KeyboardInterrupt):
@@ -162,6 +193,9 @@ class _Sim(object):
         self.initial_root_handlers = None
         self.harness_errors = []
         self.recorders = []
+        self._async_ev = None
+        self._async_call = None
+        self.vloop = None
         if world:
             for k, ln in world["lines"].items():
                 if "#" in k or k.endswith(".BG"):
@@ -447,7 +481,7 @@ class _Sim(object):
         lib = self.world["steplib"]
         import zlib
         rng = random.Random(zlib.crc32(str(ev.get("key")).encode("utf-8")) + self.world["seed"])
-        defs = [d for d in lib["defs"] if d["type"] in ("given", "step")]
+        defs = [d for d in lib["defs"] if d["type"] in ("given", "step") and not d.get("async")]
         lines = []
         for _ in range(act["n"]):
             if defs:
@@ -641,6 +675,100 @@ class _Sim(object):
             self.clock.advance(0.05)
             self.stack.pop()
 
+    def step_async(self, def_id, context, args, kwargs, async_wrapper):
+        """Sync shim around an async step wrapped by behave's async_run_until_complete:
+        records what the step function (as behave sees it) did."""
+        self._async_call = (def_id, args, kwargs)
+        self.fire("async-step-call")
+        try:
+            async_wrapper(context, *args, **kwargs)
+        except AssertionError as e:
+            if "TIMEOUT" in str(e):
+                self.fire("async-step-timeout")
+                ev = self._async_ev
+                if ev is not None:
+                    ev["raised"] = "AssertionError"
+                    ev["abandoned"] = True
+                    ev["did"].append(["async_timeout"])
+            raise
+        finally:
+            self._async_ev = None
+
+    async def astep_body(self, def_id, context, args, kwargs):
+        import asyncio
+        step = None
+        # (frame inspection cannot see Step.run from inside a task: use the call stack of the sync shim)
+        sid = self.current_scenario_id(context)
+        step = self._find_step_for_async()
+        idx = self.step_index(context, step) if step is not None else None
+        nested = idx is None
+        base = ("nstep|%s|%s" % (sid, def_id)) if nested else ("step|%s|%d" % (sid, idx))
+        occ = self.counts.get(base, 0)
+        self.counts[base] = occ + 1
+        att = self.attempt.get(sid, 0) if not nested else occ
+        key = "%s|%d" % (base, att)
+        ev = self.new_event("step", name=def_id, scen=sid, idx=idx, occ=occ, key=key, att=att,
+                            args=_jsonable(args), kwargs=_jsonable(kwargs),
+                            text=getattr(step, "name", None), stype=getattr(step, "step_type", None),
+                            ctx_text=_jsonable(getattr(context, "text", None)),
+                            ctx_table=_table_jsonable(getattr(context, "table", None)))
+        ev["async"] = True
+        ev["depth"] = 0 if not nested else 1
+        self._async_ev = ev
+        self.stack.append(("step", def_id))
+        try:
+            self.probe(ev, context)
+            ent = self.script.get(key) if not nested else None
+            plan = (ent or {}).get("async") or {}
+            async def suspended(aw):
+                # while the coroutine is suspended no callback is active
+                self.stack.pop()
+                try:
+                    await aw
+                finally:
+                    if not ev.get("abandoned"):
+                        self.stack.append(("step", def_id))
+            if plan.get("spawn"):
+                async def child():
+                    await asyncio.sleep(plan["spawn"])
+                    return 1
+                await suspended(asyncio.ensure_future(child()))
+                if ev.get("abandoned"):
+                    return
+            if plan.get("sleep"):
+                await suspended(asyncio.sleep(plan["sleep"]))
+                if ev.get("abandoned"):
+                    return
+            if ent:
+                try:
+                    self.do_actions(ev, context, ent["acts"], sid, None)
+                    self.realise(ev, ent["out"], context)
+                except BaseException as e:
+                    if ev["raised"] is None:
+                        ev["raised"] = type(e).__name__
+                        ev["raised_by_action"] = True
+                    raise
+        finally:
+            if not ev.get("abandoned"):
+                self.clock.advance(0.05)
+                if self.stack and self.stack[-1] == ("step", def_id):
+                    self.stack.pop()
+
+    def _find_step_for_async(self):
+        from behave.model import Step
+        import sys as _sys
+        # the running task was started from loop.run_until_complete(), itself called (synchronously)
+        # from the sync shim under Step.run: walk the interpreter stack of the current thread
+        f = _sys._getframe(1)
+        depth = 0
+        while f is not None and depth < 80:
+            slf = f.f_locals.get("self")
+            if isinstance(slf, Step) and f.f_code.co_name == "run":
+                return slf
+            f = f.f_back
+            depth += 1
+        return None
+
     def convert(self, type_name, text):
         self.converter_calls += 1
         if text == "BAD":
@@ -767,6 +895,18 @@ def render_step_module(world, mod, mi):
             lines.append("use_step_matcher(%r)" % d["matcher"])
             cur = d["matcher"]
         pat = W.render_pattern(d)
+        if d.get("async"):
+            tmo = d["async"].get("timeout")
+            lines.append("from behave.api.async_step import async_run_until_complete")
+            lines.append("@async_run_until_complete(loop=SIM.vloop%s)" % (", timeout=%r" % tmo if tmo else ""))
+            lines.append("async def _a_%s(context, *args, **kwargs):" % d["id"])
+            lines.append("    await SIM.astep_body(%r, context, args, kwargs)" % d["id"])
+            lines.append("@%s(%r)" % (d["type"], pat))
+            lines.append("def %s(context, *args, **kwargs):" % d["id"])
+            lines.append("    SIM.step_async(%r, context, args, kwargs, _a_%s)" % (d["id"], d["id"]))
+            lines.append("SIM.registered(%r)" % d["id"])
+            lines.append("")
+            continue
         lines.append("@%s(%r)" % (d["type"], pat))
         lines.append("def %s(context, *args, **kwargs):" % d["id"])
         lines.append("    SIM.step(%r, context, args, kwargs)" % d["id"])
@@ -1018,6 +1158,8 @@ def run_world(world, root, extra_formatters=None, keep_model=False, post=None):
     clock = SimClock(world["dims"].get("clock", "steady"), world["seed"])
     SIM.clock = clock
     write_world_files(world, root)
+    if any(d.get("async") for d in world["steplib"]["defs"]):
+        SIM.vloop = make_virtual_loop(clock)
     old_cwd = os.getcwd()
     old_env = dict(os.environ)
     old_stdout, old_stderr = sys.stdout, sys.stderr
@@ -1094,6 +1236,20 @@ def run_world(world, root, extra_formatters=None, keep_model=False, post=None):
         os.environ.update(old_env)
         sys.path[:] = old_path
         hist["stdout_restored"] = True
+    if SIM.vloop is not None:
+        hist["async_virtual_seconds"] = SIM.vloop.virtual_seconds
+        hist["async_clock_jumps"] = SIM.vloop.jumps
+        try:
+            for t in __import__("asyncio").all_tasks(SIM.vloop):
+                t.cancel()
+            SIM.vloop.run_until_complete(__import__("asyncio").sleep(0))
+        except Exception:
+            pass
+        try:
+            SIM.vloop.close()
+        except Exception:
+            pass
+        SIM.vloop = None
     hist["events"] = SIM.events
     hist["census"] = census(SIM.runner)
     runner = SIM.runner
